@@ -237,7 +237,12 @@ func runC18(c *core.Ctx) {
 		})
 		// next send instant: microseconds to minutes later, sometimes right at the boundary
 		var adv int64
-		switch t.Weighted(3, 2, 2) {
+		switch t.Weighted(3, 2, 2, 1) {
+		case 3: // the last microsecond of the current second
+			adv = 1_000_000_000 - int64(sendT.Nanosecond()) - 1 - int64(t.Intn(1000))
+			if adv < 0 {
+				adv = 0
+			}
 		case 0:
 			adv = int64(1 + t.Intn(30_000_000))
 		case 1:
